@@ -450,6 +450,7 @@ let cert_image (c : case) =
           | None -> pr "ICERT - 0 nopvs\n"
           | Some pvs ->
             let ok = M.bw_cert_ok zeqb a pvs in
+            pr "ISTATS %d\n" (if M.bw_stats_ok a pvs then 1 else 0);
             pr "ICERT %d %d\n" (if ok then 1 else 0) (int_of_n (M.bw_cert_count a pvs)))
     | _ -> pr "ISAFE 0\nICERT 0 0 undecodable\n"
   end
